@@ -390,7 +390,39 @@ def g_segments(ctx, rng, i):
             _try(sc.contains, g.PointCollection(np.stack([qs[4], qs[9]])))
 
 
+def g_small(ctx, rng, i):
+    """The same exact questions on small figures: segments and zoo polygons scaled by a negative power of two (all coordinates stay
+    exactly representable), with the query grid scaled along."""
+    import geometer as g
+
+    s = [2.0 ** -5, 2.0 ** -7, 2.0 ** -9, 2.0 ** -11][i % 4]
+    off = gen.coords(rng, (2,), 3, "int").astype(float) * [0, 1][(i // 4) % 2]
+    if (i // 8) % 2 == 0:
+        a = gen.coords(rng, (2,), 4, "int").astype(float)
+        d = gen.nonzero_vec(rng, 2, 3).astype(float)
+        k = int(rng.integers(1, 5))
+        A, B = off + s * a, off + s * (a + k * d)
+        seg = _try(g.Segment, g.Point(*A), g.Point(*B))
+        if seg is None:
+            return
+        qs = np.array([np.append(off + s * (a + t * d / 2), 1) for t in range(-4, 2 * k + 5)] + [np.append(off + s * (a + d + np.array([-d[1], d[0]])), 1), np.append(d, 0)])
+        _try(seg.contains, g.PointCollection(qs))
+        for q in qs[3:7]:
+            _try(seg.contains, g.Point(q))
+    else:
+        name = ZOO_NAMES[(i // 16) % len(ZOO_NAMES)]
+        V = [off + s * np.array(v, dtype=float) for v in ZOO[name]]
+        poly = _try((g.Triangle if len(V) == 3 else g.Polygon), *[g.Point(*v) for v in V])
+        if poly is None:
+            return
+        grid = _grid([np.array(v) for v in ZOO[name]])
+        Q = np.array([np.append(off + s * np.array([x, y], dtype=float), 1) for x, y in grid])
+        _try(poly.contains, g.PointCollection(Q))
+        _try(poly.contains, g.Point(Q[int(rng.integers(len(Q)))]))
+
+
 GROUPS = [
+    {"name": "small", "fn": g_small, "quick": 256, "thorough": 2048},
     {"name": "polygons2d", "fn": g_polygons2d, "quick": len(ZOO_NAMES) * 3 * 16, "thorough": len(ZOO_NAMES) * 3 * 24 * 4},
     {"name": "polygons3d", "fn": g_polygons3d, "quick": len(ZOO_NAMES) * 24, "thorough": len(ZOO_NAMES) * 24 * 8},
     {"name": "segments", "fn": g_segments, "quick": 600, "thorough": 6000},
